@@ -1,11 +1,15 @@
 (* C09 TLV composites: order-insensitive decode, exact skipping, canonical encode.
    Proved: the model of sort.Slice (insertion sort) returns a sorted permutation of the tags for every strict total
    order, so Pack's emission order is the unique sorted order whatever order the spec map is walked in; a composite's
-   Unpack consumes exactly the announced length or fails (C08_comp_unpack). The permutation / skipping theorems over
-   the TLV loop (C09_statements) are checked by the oracle on all permutations of up to 4 (thorough: 6) elements
-   and not yet proved. *)
+   Unpack consumes exactly the announced length or fails (C08_comp_unpack); the elements of the set subfields emitted in
+   ANY arrangement decode, into any object of the specification and for any nested coherent subfields, to equivalent
+   states (C09_any_order: order-insensitive decode); an unknown element is skipped exactly - tag, length prefix and the
+   announced value bytes, nothing else (C09_skip_exact) - or, with skipping off, reported by its tag (C09_unknown_named);
+   Pack emits each set subfield once (C09_pack_once) with its tag padded and encoded as declared (C03_composite_layout).
+   The oracle checks the same on all permutations of up to 4 (thorough: 6) elements with unknown elements at every
+   position against the library. *)
 From Coq Require Import Sorting.Permutation Sorting.Sorted.
-From Iso Require Import Model.Base Model.Spec Model.Field Proofs.BaseLemmas Proofs.SortProofs Proofs.FieldProofs Properties.C01.
+From Iso Require Import Model.Base Model.Padding Model.Encoding Model.Prefix Model.Spec Model.Field Proofs.BaseLemmas Proofs.SortProofs Proofs.FieldProofs Proofs.CompositeProofs Proofs.TlvProofs Properties.C01.
 
 Theorem C09_sort_perm : forall less l, Permutation l (fold_right (insert_sorted less) [] l).
 Proof. exact sort_perm. Qed.
@@ -16,6 +20,39 @@ Theorem C09_sort_sorted : forall less,
   forall l, Sorted (le' less) (fold_right (insert_sorted less) [] l).
 Proof. intros less Ht l. apply sort_sorted. exact Ht. Qed.
 Print Assumptions C09_sort_sorted.
+
+Theorem C09_any_order : forall pref len t e subs set sts order body pre st0 rest,
+  let s := FComp pref len (CTag t) subs in
+  coherent s -> tg_enc t = Some e -> in_dom s (SComp set sts) ->
+  NoDup order -> (forall tag, bmem tag set = true <-> In tag order) ->
+  pack_by_tag (gop subs) t order set sts = Ok body -> zlen body <= max_int ->
+  enc_len pref len (zlen body) = Ok pre -> shaped s st0 ->
+  exists st', unpack_f s st0 (pre ++ body ++ rest) = (st', UOk (zlen pre + zlen body)) /\ equiv s (SComp set sts) st'.
+Proof. exact tlv_any_order. Qed.
+Print Assumptions C09_any_order.
+
+Theorem C09_skip_exact : forall unpackers freshes t e fuel data off set sts tagb tread flen lread,
+  zlen data <=? off = false ->
+  enc_decode e (zdrop off data) (tg_len t) = Ok (tagb, tread) ->
+  blookup (unpad (tg_pad t) tagb) unpackers = None -> skip_unknown t = true ->
+  dec_len (match tg_prefunk t with Some p => p | None => PBerTLV end) (match tg_prefunk t with Some _ => max_int | None => 0 end) (zdrop (off + tread) data) = Ok (flen, lread) ->
+  (flen <? 0) || (zlen data - (off + tread) - lread <? flen) = false ->
+  unpack_by_tag unpackers freshes (S fuel) t e data off set sts = unpack_by_tag unpackers freshes fuel t e data (off + tread + flen + lread) set sts.
+Proof. exact tlv_skip_exact. Qed.
+Print Assumptions C09_skip_exact.
+
+Theorem C09_unknown_named : forall unpackers freshes t e fuel data off set sts tagb tread,
+  zlen data <=? off = false ->
+  enc_decode e (zdrop off data) (tg_len t) = Ok (tagb, tread) ->
+  blookup (unpad (tg_pad t) tagb) unpackers = None -> skip_unknown t = false ->
+  exists err, unpack_by_tag unpackers freshes (S fuel) t e data off set sts = ((set, sts), UErr [unpad (tg_pad t) tagb] err).
+Proof. exact tlv_unknown_named. Qed.
+Print Assumptions C09_unknown_named.
+
+Theorem C09_pack_once : forall pref len t subs, coherent (FComp pref len (CTag t) subs) ->
+  NoDup (ordered_tags (CTag t) subs) /\ Permutation (map fst subs) (ordered_tags (CTag t) subs).
+Proof. exact tlv_pack_once. Qed.
+Print Assumptions C09_pack_once.
 
 (* the two subfields are emitted once each, in the sort order, whatever the order of the spec list and of the set *)
 Example C09_ex_order :
